@@ -56,6 +56,36 @@ def dir_terms(W, weighted):
     return num, den
 
 
+def zhang_terms(Wp):
+    """Zhang & Horvath (2005) weighted coefficient of a non-negative matrix:
+    numerator[i] = sum_{j,q} w_ji w_iq w_jq, denominator[i] = sum_{j != q} w_ji w_iq  (j, q range over all nodes)"""
+    n = len(Wp)
+    num = np.zeros(n)
+    den = np.zeros(n)
+    for i in range(n):
+        for j in range(n):
+            for q in range(n):
+                num[i] += Wp[j, i] * Wp[i, q] * Wp[j, q]
+                if j != q:
+                    den[i] += Wp[j, i] * Wp[i, q]
+    return num, den
+
+
+def costantini_terms(W):
+    """Costantini & Perugini (2014) signed generalisation:
+    numerator[i] = sum_{j,q} w_ji w_iq w_jq, denominator[i] = sum_{j != q} |w_ji w_iq|"""
+    n = len(W)
+    num = np.zeros(n)
+    den = np.zeros(n)
+    for i in range(n):
+        for j in range(n):
+            for q in range(n):
+                num[i] += W[j, i] * W[i, q] * W[j, q]
+                if j != q:
+                    den[i] += abs(W[j, i] * W[i, q])
+    return num, den
+
+
 def coef(num, den):
     C = np.zeros(len(num))
     for u in range(len(num)):
